@@ -35,9 +35,17 @@ META = {
                   "split preserves manifoldness when the cut diagonal is not joined yet; the object passed in equals the result "
                   "when no operation replaced the raw data and its connectivity had not been queried. REFUTED (two recorded "
                   "known findings, witnesses proved in Coq and replayed on every run): the object passed in is left "
-                  "half-updated / with stale tables; triangulate() on a manifold but non-simple quad configuration. Tested "
-                  "only (correspondence + oracle): border loops and components, conformity and face orientation of refined "
-                  "tetrahedral meshes, split_double_boundary_edges_triangles' selection rule, Python-set order effects.",
+                  "half-updated / with stale tables; triangulate() on a manifold but non-simple quad configuration. Also FULL: "
+                  "border directed edges of a refinement are exactly the halves of the border edges (loop, 3quads) resp. "
+                  "unchanged (fan; quad split under its guard), and connected components are in bijection (old vertices joined "
+                  "afterwards iff joined before, every new vertex joined to an old one) for loop, 3quads, fan, quad split; "
+                  "triangulate() as a whole loop preserves oriented manifoldness under the guard 'cuts not joined yet and "
+                  "pairwise different' and one round of subdivide_triangles_6 discharges that guard; the selection rule of "
+                  "split_double_boundary_edges_triangles; for both tetrahedral splits the oriented sides of the pieces are "
+                  "the old sides (the split side replaced by its fan) plus interior sides in opposite pairs. Tested only "
+                  "(correspondence + oracle): number of border LOOPS as cycles, global conformity of refined tetrahedral "
+                  "meshes and the faces/edges their prepare() adds on exit, repeat>=2 of subdivide_triangles_6 as manifold, "
+                  "Python-set order effects.",
     "level_note": "Trusted: Coq kernel + vm_compute; the subdivision.py translator; the correspondence harness "
                   "(generators, driver canonicalisation, exact rational read-back of binary64 coordinates on inputs that "
                   "are multiples of 2^10*3^5*5*7). The order of a Python set (loop_subdivision's edge set) is not "
@@ -433,6 +441,11 @@ def run(ctx):
         "coordinates are multiples of 2^10*3^5*5*7 so that every midpoint and barycentre of the generated histories is exact in binary64",
         "iteration order of a Python set is not modelled (results compared up to the renumbering it induces on new vertices)",
         "negative element ids (Python wrap-around indexing) are outside the documented inputs and outside the model"]
+    ctx.notes += [
+        "observation (outside C13's text, C02/C15 territory): loop_subdivision / subdivide_triangles_3quads list every refined edge "
+        "explicitly before prepare(), so every edge of their result carries hard_edges=True (icosphere(1): 120 of 120, icosahedron: 0 of 30)",
+        "observation: the docstring of subdivide_triangles_6 promises the corner-barycentre diagonal; the code cuts each quad between its two "
+        "edge midpoints (counts, total area and manifoldness are unaffected; the six triangles are T/4 and T/12, not six T/6)"]
     ctx.regen(sys.modules[__name__])
     b = ctx.build_props(extra_targets=["theories/C13/Run.vo"])
     ctx.hygiene(["Lib", "C13"])
